@@ -188,9 +188,16 @@ def rule_tables():
     return {"ev": "rules", "merge": merge_rules, "expand": expand_rules}
 
 
-def run_merge(src, frags, use_smiles):
+def run_merge(src, frags, use_smiles, spectators=()):
+    """spectators: (position, smiles) pairs of compounds without attachment point (catalysts, excess reagents) that
+    are part of the same compound set; position = number of fragments added before them"""
     cset = CompoundSet()
-    for f in frags:
+    for n_f, f in enumerate(list(frags) + [None]):
+        for pos, sp in spectators:
+            if pos == n_f:
+                cset.add_compound(sp, src_mol=sp)
+        if f is None:
+            break
         if use_smiles:
             # atom order of the written SMILES: pass the molecule re-parsed from its SMILES and map the index
             smi = Chem.MolToSmiles(f["mol"])
@@ -301,6 +308,57 @@ def main():
                 except Exception as ex:
                     e1["raised"] = "%s: %s" % (type(ex).__name__, str(ex)[:100])
                 add(e1)
+    # compound sets that also hold compounds WITHOUT attachment point (spectators), before / between / after the fragments
+    nspect = 0
+    # (no alcohols and no water: compound rules turn an alcohol "catalyst" into a reaction partner and drop water)
+    pool_s = ["N", "Cl", "Br", "CCOCC", "c1ccncc1", "CS(C)=O", "[Na+]", "CC#N"]
+    for smi in mols:
+        if nspect >= (200 if tier == "quick" else 4000):
+            break
+        src = oracle.parse(smi)
+        if src is None or src.GetNumAtoms() < 3 or src.GetNumAtoms() > 40 or "." in smi:
+            continue
+        Chem.MolToSmiles(src)
+        bonds = [b for b in src.GetBonds() if b.GetBondType() == Chem.BondType.SINGLE and not b.IsInRing()
+                 and b.GetBeginAtom().GetSymbol() != "H" and b.GetEndAtom().GetSymbol() != "H"]
+        if not bonds:
+            continue
+        frags = cut(src, rng.choice(bonds))
+        if frags is None:
+            continue
+        for f in frags:
+            Chem.MolToSmiles(f["mol"])
+        for mode in range(2):
+            fr = frags if mode == 0 else [frags[rng.randrange(2)]]
+            k = rng.choice([1, 2, 2, 3])
+            sp = [(rng.choice(range(len(fr) + 1)) if rng.random() < 0.5 else (0 if rng.random() < 0.5 else len(fr)),
+                   rng.choice(pool_s)) for _ in range(k)]
+            if rng.random() < 0.5:
+                sp = [(sp[0][0], x[1]) for x in sp]         # all at one place: adjacent spectators
+            nspect += 1
+            use_smiles = nspect % 2 == 0
+            sm = [oracle.parse(x[1]) for x in sp]
+            e = {"ev": "merge_s", "src": smi, "use_smiles": use_smiles, "b": [describe(src, f, use_smiles, rng) for f in fr],
+                 "frag_smiles": [Chem.MolToSmiles(f["mol"]) for f in fr] + [x[1] for x in sp],
+                 "frag_heavy": [counts(f["mol"]) for f in fr] + [counts(m_) for m_ in sm],
+                 "spectators": [[p_, x_] for p_, x_ in sp], "raised": "", "rules": [], "open": 0, "parses": False, "heavy": {},
+                 "ncomp": 0, "spectators_kept": False}
+            try:
+                res = run_merge(src, fr, use_smiles, spectators=sp)
+                e["rules"] = [r.name for r in res.rules]
+                e["open"] = len(res.boundaries)
+                e["out"] = res.smiles
+                m = oracle.parse(res.smiles)
+                if m is not None:
+                    e["parses"] = True
+                    e["heavy"] = counts(m)
+                    comps = [ident_nostereo(x) for x in Chem.GetMolFrags(m, asMols=True)]
+                    e["ncomp"] = len(comps)
+                    want = [ident_nostereo(x) for x in sm]
+                    e["spectators_kept"] = all(comps.count(w) >= want.count(w) for w in want)
+            except Exception as ex:
+                e["raised"] = "%s: %s" % (type(ex).__name__, str(ex)[:100])
+            add(e)
     # fragments with two attachment points (two bonds cut), completed on their own, boundaries in both orders
     nmulti = 0
     max_multi = 250 if tier == "quick" else 5000
@@ -344,7 +402,7 @@ def main():
                 add(e)
     common.write_ndjson(out_file, ev)
     m2 = [e for e in ev if e["ev"] == "merge2"]
-    print(json.dumps({"events": len(ev), "pairs": npairs, "two_boundary_fragments": nmulti, "reconstructed": sum(1 for e in m2 if e["same"]),
+    print(json.dumps({"events": len(ev), "pairs": npairs, "two_boundary_fragments": nmulti, "sets_with_spectators": nspect, "reconstructed": sum(1 for e in m2 if e["same"]),
                       "raised": sum(1 for e in ev if e.get("raised")),
                       "rules_seen": sorted({r for e in ev if e["ev"] != "rules" for r in e["rules"]})}))
 
